@@ -336,36 +336,5 @@ func runC32(c *fw.Ctx) {
 		}
 	})
 	c.Extra("refusals", refused)
-	// key = the class; the smallest failing case of each class is kept as the example
-	fails.mu.Lock()
-	type ex struct {
-		ord int
-		vec []int
-		sig string
-		n   int
-	}
-	classes := map[string]*ex{}
-	for _, fc := range fails.fails {
-		x := classes[fc.hint]
-		if x == nil {
-			x = &ex{ord: fc.ord, vec: fc.vec, sig: fc.sig}
-			classes[fc.hint] = x
-		}
-		if fc.ord < x.ord {
-			x.ord, x.vec, x.sig = fc.ord, fc.vec, fc.sig
-		}
-		x.n++
-	}
-	fails.mu.Unlock()
-	var ks []string
-	for k := range classes {
-		ks = append(ks, k)
-	}
-	sort.Strings(ks)
-	for _, k := range ks {
-		x := classes[k]
-		for i := 0; i < x.n; i++ {
-			c.Fail(k, fmt.Sprintf("%s; first case: %s: %s", k, e.render(x.vec), x.sig), map[string]any{"first_case": e.render(x.vec), "vec": x.vec, "disagreement": x.sig})
-		}
-	}
+	hReportClasses(c, &fails, e.render)
 }
